@@ -845,6 +845,25 @@ def main(ctx):
                 bounds=dict(displacements_relative_to_step=list(DELTAS), tables=["4 x 1.0", "6 x 0.25", "5 x 1000 at 1e6", "9 x 1e-3", "201/2001 nodes, step growing by 4e-9 per node"],
                             queries=["nominal node", "real node", "between", "beyond", "1 ulp either side"]))
 
+    # unevenly spaced tables that LOOK regular to a cheap test: first step == last step == mean step (interior uneven),
+    # first == second step, all steps equal but one, symmetric step patterns - every node, mid-point and 1/4 point queried
+    LOOKS_EVEN = [(0.0, 1.0, 1.5, 3.5, 4.0, 5.0), (2.0, 4.0, 5.0, 6.0, 7.0, 8.0, 14.0, 16.0), (0.0, 1.0, 1.25, 2.75, 3.0, 4.0), (-3.0, -2.0, -1.9, -0.1, 0.0, 1.0),
+                  (0.0, 1.0, 2.0, 2.5, 4.0), (0.0, 0.5, 2.0, 3.0, 4.0), (0.0, 1.0, 2.0, 3.0, 3.5, 5.0, 6.0), (10.0, 20.0, 25.0, 45.0, 50.0, 60.0), (0.0, 2.0, 3.0, 4.0),
+                  (0.0, 1.0, 3.0, 4.0), (0.0, 1.0, 1.0 + 2 ** -20, 3.0, 4.0)]
+
+    def expand_looks(xt):
+        us = []
+        for a, b in zip(xt[:-1], xt[1:]):
+            us += [a, a + 0.25 * (b - a), 0.5 * (a + b), a + 0.9 * (b - a)]
+        us += [xt[-1], xt[0] - 0.5, xt[-1] + 0.5]
+        us = tuple(dict.fromkeys(us))
+        for vt in (tuple(float((i * i) % 5) * 3.0 for i in range(len(xt))), tuple(float(i % 2) * 100.0 for i in range(len(xt))), tuple(a * a for a in xt)):
+            yield ("f8", xt, vt, us, False)
+            for uq in us:
+                yield ("f8", xt, vt, (uq,), True)
+
+    ctx.lattice("interplin-tables-that-look-even", LOOKS_EVEN, one_interp, expand=expand_looks, bounds=dict(tables=[list(t) for t in LOOKS_EVEN]))
+
     # ------------------------------------------------------------------
     # part 6: get_stats
     def getf(res, key, shape, case, rec):
